@@ -129,7 +129,7 @@ theorem parse_path_obj (b ek k : List Char) (hb : ∀ c ∈ b, bucketChar c = tr
       have := List.append_cancel_left (as := '/' :: b) (by simpa using e)
       exact he (by simpa using this)
     have he' : (ek == esc k) = false := by simpa using he
-    simp [this, he, he', pathObjTarget]
+    simp [he, he', pathObjTarget]
 
 /-! ### Part 1: the property, repaired rewrite -/
 
